@@ -632,10 +632,10 @@ func xalgebra(toks []string) string {
 	}
 	if a.Contains(b) && !b.Empty() {
 		if !a.Intersects(b) {
-			return "FAIL contains without intersects"
+			return "FAIL contains without intersects " + algebraSig(a, b)
 		}
 		if !a.Rect().ContainsRect(b.Rect()) {
-			return "FAIL contains but rectangle does not cover"
+			return "FAIL contains but rectangle does not cover " + algebraSig(a, b)
 		}
 	}
 	if a.Intersects(b) && !a.Rect().IntersectsRect(b.Rect()) {
@@ -675,6 +675,44 @@ func xalgebra(toks []string) string {
 		}
 	}
 	return "ok"
+}
+
+// signature for the known-finding match: leaf kinds of receiver and argument, "big" when the
+// argument has a leaf with at least 16 points (the rectangle shortcut of ringContainsRing)
+func algebraSig(a, b geojson.Object) string {
+	big := false
+	kindsOf := func(o geojson.Object, markBig bool) string {
+		kinds := map[string]bool{}
+		var walk func(o geojson.Object)
+		walk = func(o geojson.Object) {
+			switch v := o.(type) {
+			case *geojson.Feature:
+				walk(v.Base())
+			case geojson.Collection:
+				for _, c := range v.Children() {
+					walk(c)
+				}
+			default:
+				kinds[kindName(o)] = true
+				if markBig && o.NumPoints() >= 16 {
+					big = true
+				}
+			}
+		}
+		walk(o)
+		var ks []string
+		for _, k := range []string{"LineString", "Polygon", "Point", "SimplePoint", "Rect", "Circle"} {
+			if kinds[k] {
+				ks = append(ks, k)
+			}
+		}
+		return strings.Join(ks, ",")
+	}
+	s := "[A:" + kindsOf(a, false) + " B:" + kindsOf(b, true)
+	if big {
+		s += " big"
+	}
+	return s + "]"
 }
 
 var _ = reflect.DeepEqual
